@@ -157,6 +157,18 @@ def F10():
     return ok and ok2 and len(w.tasks) == 3
 
 
+def F36():
+    """C16: a children list object obtained before sort()/reorder() goes stale; remove() through it drops other tasks"""
+    w = WBS()
+    x, y, z = Task(1), Task(2), Task(3)
+    w.roots = [x, y, z]
+    r = w.roots
+    w.roots.reorder([3])
+    r.append(Task(4))
+    r.remove(y)
+    return [t.id for t in w.roots] == [3, 1, 4]
+
+
 def F11():
     """C15 (known): constructor / multi-receiver operators are sequences of atomic setter calls"""
     t1 = Task(1)
@@ -470,7 +482,7 @@ def F34c():
     return run(datetime(2025, 1, 6)) == run(datetime(2026, 1, 5))
 
 
-ALL = [F1, F2, F3, F4, F35, F5, F6, F7, F8, F9, F10, F11, F11b, F11c, F13, F14, F14b, F15, F16, F17, F19, F20, F21, F22, F23, F24,
+ALL = [F1, F2, F3, F4, F35, F5, F6, F7, F8, F9, F10, F36, F11, F11b, F11c, F13, F14, F14b, F15, F16, F17, F19, F20, F21, F22, F23, F24,
        F25, F26, F27, F28, F30, F33, F34, F34b, F34c]
 
 if __name__ == '__main__':
